@@ -905,9 +905,9 @@ def table_lines(ctx, n, kind="rt", prefix="", small=False, incons=0.08):
     nm = (b"Name", ref.Obj(10, [b"c"]), None)
     i1, i2 = ref.Obj(2, [b"\1\0\0\0"]), ref.Obj(2, [b"\2\0\0\0"])
     s1 = ref.Obj(10, [b"x"])
-    for a, b in [((b"Unit", i1, i1), (b"Unit", i1, None)), ((b"Unit", i1, None), (b"Unit", i1, i2)),
-                 ((b"Unit", i1, i1), (b"Unit", i2, i2)), ((b"Unit", i1, None), (b"Unit", s1, None)),
-                 ((b"Unit", s1, s1), (b"Unit", s1, None))]:
+    for a, b in ([((b"Unit", i1, i1), (b"Unit", i1, None)), ((b"Unit", i1, None), (b"Unit", i1, i2)),
+                  ((b"Unit", i1, i1), (b"Unit", i2, i2)), ((b"Unit", i1, None), (b"Unit", s1, None)),
+                  ((b"Unit", s1, s1), (b"Unit", s1, None))] if incons > 0 else []):
         for mid in ([], [[nm]]):
             t = ref.Table([], [[nm, a]] + mid + [[nm, b]], [])
             out.append((t, "%s%s %s" % (prefix, kind, t.script())))
